@@ -49,6 +49,8 @@ def tname(t):
         return "Generator(%s)" % tname(t[1])
     if k == "tup":
         return "(%s)" % ", ".join(tname(x) for x in t[1])
+    if k == "adt":
+        return "AD%d" % t[1]
     raise ValueError(t)
 
 
@@ -263,6 +265,12 @@ class Renderer(object):
             return "(try %s catch E in { %s; true => throw E; never }%s)" % (self.ex(x["body"]), hs, fin)
         if e == "error":
             return "error %s" % esc(x.get("msg", "halt"))
+        if e == "acall":
+            return "(%s(%s)$AD%d)" % (x["op"], ", ".join(self.ex(a) for a in x["args"]), x["adt"])
+        if e == "per":
+            return "per(%s)" % self.ex(x["v"])
+        if e == "rep":
+            return "(rep(%s))" % self.ex(x["v"])
         if e == "collect":
             src = "%s..%s" % (self.ex(x["src"]["lo"]), self.ex(x["src"]["hi"])) if x["src"].get("e") == "range" else self.ex(x["src"])
             cond = "" if x["cond"].get("e") == "none" else " | %s" % self.ex(x["cond"])
@@ -300,6 +308,16 @@ class Renderer(object):
             if c["defaults"]:
                 dfl = "; default { %s }" % "; ".join(self.opdef(o) for o in c["defaults"])
             out.append("define %s: Category == with { %s%s };" % (c["name"], sigs, dfl))
+        for k, a in enumerate(p.get("adts", [])):
+            self.in_adt = k
+
+            def at(t):
+                return "%" if t == ["adt", k] else tname(t)
+            sigs = "; ".join("%s: (%s) -> %s" % (o["name"], ", ".join(at(t) for t in o["pts"]), at(o["rt"])) for o in a["ops"])
+            defs = "; ".join("%s(%s): %s == %s" % (o["name"], ", ".join("%s: %s" % (self.nm(q), at(t)) for q, t in zip(o["ps"], o["pts"])),
+                                                   at(o["rt"]), self.ex(o["body"])) for o in a["ops"])
+            out.append("AD%d: with { %s } == add { Rep == %s; import from Rep; %s };" % (k, sigs, tname(a["rep"]), defs))
+            self.in_adt = None
         for d in p.get("doms", []):
             head = d["name"] if not d["pcat"] else "%s(T: %s)" % (d["name"], p["cats"][d["pcat"] - 1]["name"])
             out.append("%s: %s == add { %s };" % (head, p["cats"][d["cat"] - 1]["name"], "; ".join(self.opdef(o) for o in d["ops"])))
